@@ -4,6 +4,7 @@ CONSTANTS
   MaxEdges = 3
   TimeVecs <- TimeVecsQ
   FlagVecs <- FlagVecsQ
+  TrackedMode = 1
   Thresholds = {1,2}
 SPECIFICATION Spec
 INVARIANT StateOK
